@@ -47,7 +47,7 @@ def _set_type(P):
 
 
 def _map_type(P):
-    return mich.T({'prim': 'map', 'args': [mich.texpr(P['key']), {'prim': 'int'}]})
+    return mich.T({'prim': 'map', 'args': [mich.texpr(P['key']), mich.texpr(P.get('val', 'int'))]})
 
 
 # ---- set ---------------------------------------------------------------------------------------
@@ -114,7 +114,7 @@ def sym_map_update(P, ex):
     with mbv.env():
         m = mbv.sym_value(ex, mty, 'm', 1, P['n'])
         k = mbv.sym_value(ex, mty.args[0], 'k', 1)
-        v = mbv.sym_value(ex, mich.T('option int'), 'v', 1)
+        v = mbv.sym_value(ex, mich.T({'prim': 'option', 'args': [mich.texpr(P.get('val', 'int'))]}), 'v', 1)
         pre = list(m.items)
         op = P['op']
         try:
@@ -127,7 +127,7 @@ def sym_map_update(P, ex):
                 ex.check(bvx.sym_not(_member(k, [x for x, _ in pre])), 'GET_AND_UPDATE returns None only for an absent key')
             else:
                 ex.check(_kv_member(k, old.item, pre), 'GET_AND_UPDATE returns the previous binding')
-            ex.check(mich.type_expr(old) == {'prim': 'option', 'args': [{'prim': 'int'}]}, 'type of the returned option')
+            ex.check(mich.type_expr(old) == {'prim': 'option', 'args': [mich.texpr(P.get('val', 'int'))]}, 'type of the returned option')
         else:
             r = out[0]
         res = list(r.items)
@@ -248,7 +248,7 @@ def conc_map(P, w):
         if [mich.abstract(x) for x, _ in m.items] != [mich.abstract(x) for x in order]:
             return {'ok': False, 'observed': repr(m), 'expected': repr(order), 'stage': 'building the pre-state with UPDATE'}
         if 'op' in P:
-            v = mbv.conc_value(mich.T('option int'), w, 'v')
+            v = mbv.conc_value(mich.T({'prim': 'option', 'args': [mich.texpr(P.get('val', 'int'))]}), w, 'v')
             out = mich.run_instr(mich.I({'prim': P['op']}), [k, v, m])
             r = out[-1]
             old_exp = next((val for x, val in pre.items if mbv.conc_cmp(x, k) == 0), None)
@@ -259,9 +259,9 @@ def conc_map(P, w):
             ok = got == exp
             if P['op'] == 'GET_AND_UPDATE':
                 old = out[0]
-                ok = ok and ((old.item is None) == (old_exp is None)) and (old.item is None or old.item.value == old_exp.value)
+                ok = ok and ((old.item is None) == (old_exp is None)) and (old.item is None or mich.abstract(old.item) == mich.abstract(old_exp))
             g = mich.run_instr(mich.I({'prim': 'GET'}), [k, r])[0]
-            ok = ok and ((g.item is None) == (v.item is None)) and (g.item is None or g.item.value == v.item.value)
+            ok = ok and ((g.item is None) == (v.item is None)) and (g.item is None or mich.abstract(g.item) == mich.abstract(v.item))
             return {'ok': ok, 'observed': repr(out), 'expected': repr(exp)}
         got = mich.run_instr(mich.I({'prim': 'GET'}), [k, m])[0]
         mem = mich.run_instr(mich.I({'prim': 'MEM'}), [k, m])[0].value
@@ -298,6 +298,11 @@ def obligations(tier):
                           bounds=f'any valid map of <= {nn} bindings {key} -> int, any key, Some v or None', targets=TARGETS))
         obs.append(Ob(f'map/GET+MEM+MAP+ITER/{key}', 'bvx', sym_map_read, conc_map, dict(P), timeout=t,
                       bounds=f'any valid map of <= {nn} bindings {key} -> int', targets=TARGETS))
+    for val in ('bool', 'string', 'list int', 'option int'):
+        for op in ('UPDATE', 'GET_AND_UPDATE'):
+            obs.append(Ob(f'map/{op}/int->{val}', 'bvx', sym_map_update, conc_map, {'key': 'int', 'n': 2, 'op': op, 'val': val}, timeout=t,
+                          bounds=f'any valid map of <= 2 bindings int -> {val} (values that are falsy in Python included), any key, Some v or None',
+                          targets=TARGETS))
     for key in ('int', 'pair int int', 'or int string'):
         for kind in ('set', 'map'):
             obs.append(Ob(f'literal/{kind}/{key}/n=3', 'bvx', sym_literal, conc_literal,
